@@ -7,7 +7,7 @@ NOTE_COMMON = ("Trusted base: python's ast grammar; the documented semantics of 
                "helpers resolved through the reference call table, canonical conditionals, fill-by-loop accumulators as "
                "comprehensions, local functions as lambdas, displays unrolled); where a rule evaluates an extracted formula on a "
                "grid of placements the verdict holds for the listed points; the thorough tier re-runs the "
-               "mutant catalogue, the engine self-test and the 705 stored seeded changes (384 defects, 321 behaviour-preserving refactors). Every check also runs, on its anchor files and the functions it summarises, the common rules G.1 - G.3 (shared state, input mutation), G.4 / G.5 (public signatures, constants, pydantic model declarations incl. value-rewriting validators / serialisers, and class bases against the reference table sa/pinned_decls.json), G.9 (public names of the package resolve to the analysed definitions, else the rules are re-run on the replacing definition), G.10 (no pydantic model built or altered past its validators); calls are compared in one spelling (reference call-site spelling, documented default options of third-party calls folded away -- the default tables in sa/sym.py are part of the trusted base), G.6 - G.8 (one-shot iterators, mutation while iterating, swallowed exceptions, truthiness of model instances); new optional parameters of reference functions are analysed at their defaults.")
+               "mutant catalogue, the engine self-test and the 698 active stored seeded changes (383 defects, 315 behaviour-preserving refactors; 7 more are retired since repairs changed the code under them). Every check also runs, on its anchor files and the functions it summarises, the common rules G.1 - G.3 (shared state, input mutation), G.4 / G.5 (public signatures, constants, pydantic model declarations incl. value-rewriting validators / serialisers, and class bases against the reference table sa/pinned_decls.json), G.9 (public names of the package resolve to the analysed definitions, else the rules are re-run on the replacing definition), G.10 (no pydantic model built or altered past its validators); calls are compared in one spelling (reference call-site spelling, documented default options of third-party calls folded away -- the default tables in sa/sym.py are part of the trusted base), G.6 - G.8 (one-shot iterators, mutation while iterating, swallowed exceptions, truthiness of model instances); new optional parameters of reference functions are analysed at their defaults.")
 
 CLAIMS = {
     "C01": {
@@ -16,7 +16,7 @@ CLAIMS = {
                 "restored, every sub-adapter store is emitted as a top-level list and re-registered in wiring order, and the "
                 "type table is most-specific-first and consistent with the discriminated union. Codec fidelity of values and "
                 "the n-cycle fixpoint are not decided.",
-        "design_ref": "DESIGN.md section 3, C01 (R01.1-R01.6); R01.7 and the memo-table scenarios in sections 8.2 / 8.6; R01.8 and the delegated C18 flow rules in sections 8.7 / 8.8",
+        "design_ref": "DESIGN.md section 3, C01 (R01.1-R01.6); R01.7 and the memo-table scenarios in sections 8.2 / 8.6; R01.8 and the delegated C18 flow rules in sections 8.7 / 8.8; R01.9 (own lists written element by element; known finding K03) in section 8.15",
         "note": NOTE_COMMON,
         "technique": "ast-based field-flow analysis over gated-SSA summaries of every adapter pair; wiring-graph order check",
     },
@@ -27,7 +27,7 @@ CLAIMS = {
                 "registration with the matching data class, sub-adapters share the collection's stores, ids are allocated "
                 "before insertion (dense tag ids keyed by the stored (key, value)), objects are stored after assembly in "
                 "insertion order, and only DataAdapter methods write the stores. Run-time distinctness of objects is trusted.",
-        "design_ref": "DESIGN.md section 3, C02 (R02.1-R02.6)",
+        "design_ref": "DESIGN.md section 3, C02 (R02.1-R02.6); R02.7 (unique identifiers of own lists; known finding K02) in section 8.15",
         "note": NOTE_COMMON,
         "technique": "evaluation-order (may-execute-after) analysis of store snapshots vs conversions over the adapter wiring graph; who-may-write sweep",
     },
@@ -36,7 +36,7 @@ CLAIMS = {
                 "from io.save/io.load into the recording adapter of all 8 collection adapters; the stored path is "
                 "relative_to(audio_dir) iff a directory is given with the error propagating; the loaded path is "
                 "audio_dir / stored iff given; the conversion completes before the file is written. pathlib semantics trusted.",
-        "design_ref": "DESIGN.md section 3, C18 (R18.1-R18.3)",
+        "design_ref": "DESIGN.md section 3, C18 (R18.1-R18.3); R18.4 normalised containment (F20) and R18.5 UTF-8 document I/O (F26) in section 8.15",
         "note": NOTE_COMMON,
         "technique": "interprocedural parameter-flow closure over resolved callees and constructor wiring; gated-SSA path-term matching",
     },
@@ -60,7 +60,7 @@ CLAIMS = {
                 "mutation path in the package bypasses validation (package sweep with positive fixture); ordering invariants are tested on "
                 "validated (coerced) values, not on the raw input of a before-mode validator (R04.6). Equality of behaviour across "
                 "constructor / dict / JSON input is pydantic's (trusted).",
-        "design_ref": "DESIGN.md section 3, C04 (R04.1-R04.3); near-equal placements and C01 pair rules on the relational adapters in section 8.8; R04.6 (F19) in section 8.14",
+        "design_ref": "DESIGN.md section 3, C04 (R04.1-R04.3); near-equal placements and C01 pair rules on the relational adapters in section 8.8; R04.6 (F19, F25) in sections 8.14 / 8.15",
         "note": NOTE_COMMON,
         "technique": "pydantic field-table extraction; guard formulas vs specification truth tables; who-may-call sweep for validation-bypass APIs",
     },
@@ -110,7 +110,7 @@ CLAIMS = {
                 "same mask on both arrays; every mean over a selection is guarded against emptiness; each task builds its metric lists from "
                 "its own tables at the right level under its own name; the per-item results and the truth / score rows a task function "
                 "returns are accumulated in lock-step (same loops, same conditions). Metric values vs independent formulas / order independence not decided.",
-        "design_ref": "DESIGN.md section 3, C09 (R09.1-R09.5); R09.6 in section 8.8; rank rule of the unlabelled mask (F18) in section 8.11; delegated encoder rules of C19 in section 8.12",
+        "design_ref": "DESIGN.md section 3, C09 (R09.1-R09.5); R09.6 in section 8.8; rank rule of the unlabelled mask (F18) in section 8.11; delegated encoder rules of C19 in section 8.12; R09.7 (clamped none probability, F23) and R09.8 (constructible clip evaluations, known finding K01) in section 8.15",
         "note": NOTE_COMMON,
         "technique": "table-row agreement over resolved names; sibling cross-check of wrapper summaries as canonical terms; guard-dominance rule for means",
     },
@@ -130,7 +130,7 @@ CLAIMS = {
                 "canonically min(stops) - max(starts) >= threshold (0 | absolute | relative x shorter width); threshold validation exact at the "
                 "endpoints 0 and 1; temporal/frequency predicates pass the right bounds projections and forward thresholds; is_in_clip decided "
                 "on all 9 orderings incl. touching cases and the negative-minimum guard.",
-        "design_ref": "DESIGN.md section 3, C12 (R12.1-R12.5); delegated conversion / validator subsets in section 8.12",
+        "design_ref": "DESIGN.md section 3, C12 (R12.1-R12.5); delegated conversion / validator subsets in section 8.12; R12.6 exports (F24) in section 8.15",
         "note": NOTE_COMMON,
         "technique": "swap-invariance and canonical comparison of summaries; ordering/interval-endpoint evaluation of extracted guards",
     },
@@ -158,7 +158,7 @@ CLAIMS = {
                 "positions with floor sample indices and Nyquist cap; cast/raise switches by truth table; error policy (skip iff "
                 "ignore_errors, else re-raise, append outside the handler); one output per input in order; label cascades decided per "
                 "option scenario incl. 'explicit option survives a lookup miss'. Exact float reproduction is trusted from pass-through.",
-        "design_ref": "DESIGN.md section 3, C10 (R10.1-R10.6); delegated term codec rule of C01 in section 8.12",
+        "design_ref": "DESIGN.md section 3, C10 (R10.1-R10.6); delegated term codec rule of C01 in section 8.12; R10.7 and the corrected cascade scenarios (F21, F22) in section 8.15",
         "note": NOTE_COMMON,
         "technique": "dimension (unit-exponent) abstract domain over gated-SSA terms; truth tables of extracted guards; scenario-wise partial evaluation of option cascades",
     },
